@@ -1,16 +1,16 @@
 import sys, time
 sys.path.insert(0, '/verif')
 from vc.contract import verify_cfg
-from contracts import kernels
+from contracts import registry
 def main(names, D=None):
     for nm in names:
-        con = kernels.REG[nm]
+        con = registry.ALL[nm]
         for cfg in con.cfgs:
-            t = time.time(); r = verify_cfg(con, cfg, kernels.REG, '/repo', D=D)
+            t = time.time(); r = verify_cfg(con, cfg, registry.ALL, '/repo', D=D)
             bad = [(o['name'], o['verdict'], o['seconds'], o['why']) for o in r.obligations if o['verdict'] != 'unsat']
             print('%-14s %-10s obl=%2d  %s  %.1fs %s' % (nm, cfg, len(r.obligations), 'UNDECIDED: ' + r.undecided if r.undecided else ('ok' if not bad else 'FAILED'), time.time() - t, bad if bad else ''))
 if __name__ == '__main__':
     D = None
     args = sys.argv[1:]
     if args and args[0].startswith('D='): D = int(args[0][2:]); args = args[1:]
-    main(args or list(kernels.REG), D)
+    main(args or list(registry.ALL), D)
